@@ -176,6 +176,10 @@ func checkLoneScan(p *Program, r *Result, fn *ssa.Function) {
 					// (with no stanza at all the loop does not run: > 1 and != 1 refuse the same headers)
 					ln = true
 				case s == "(RangeIdx#1 + 1) <= (len(P1) + -1)" || s == "(RangeIdx#1 + 1) < len(P1)":
+				case !strings.Contains(s, "Field(Elem(P1") && !strings.Contains(s, "RangeIdx") || s == "Elem(P1, (RangeIdx#1 + 1)) != nil":
+					// a condition that says nothing about which stanza is looked at or what it holds
+					// (the list is not empty, the element is not nil, the identity is initialised):
+					// it lets no position through
 				default:
 					rest = append(rest, s)
 				}
@@ -272,8 +276,12 @@ func scanOrSingle(p *Program, fn *ssa.Function, scan *RangeLoop, b *ssa.BasicBlo
 			}
 			if isIf {
 				fe := tb.FactsOnEdge(x, k)
-				if len(fe) > 0 && short(fe[len(fe)-1].String()) == "len(P1) == 1" {
-					continue
+				if len(fe) > 0 {
+					// a lone stanza (or none at all) needs no scan
+					switch short(fe[len(fe)-1].String()) {
+					case "len(P1) == 1", "len(P1) <= 1", "len(P1) < 2", "len(P1) == 0":
+						continue
+					}
 				}
 			}
 			work = append(work, su)
